@@ -1,0 +1,40 @@
+//go:build verif
+
+package triple
+
+// Contracts for the gowp verifier (/verif). Comment-only file.
+
+// An object boxes exactly one of node, predicate, literal.
+//@ spec macro wfObj(o *Object) Bool = o != nil && (o.n != nil || o.p != nil || o.l != nil)
+//@ spec macro wfTriple(t *Triple) Bool = t != nil && t.s != nil && t.p != nil && wfObj(t.o)
+
+//@ props C15 C08
+//@ func ParseObject
+//@   opt terminates
+//@   opt replay-arg-b literal.DefaultBuilder()
+//@   opt replay-imports github.com/google/badwolf/triple/literal
+//@   requires b != nil
+//@   ensures[value-or-error] (result0 != nil && result1 == nil) || (result0 == nil && result1 != nil)
+//@   ensures[well-formed] result0 != nil ==> wfObj(result0)
+
+//@ func Parse
+//@   opt terminates
+//@   opt replay-arg-b literal.DefaultBuilder()
+//@   opt replay-imports github.com/google/badwolf/triple/literal
+//@   requires b != nil
+//@   ensures[value-or-error] (result0 != nil && result1 == nil) || (result0 == nil && result1 != nil)
+//@   ensures[well-formed] result0 != nil ==> wfTriple(result0)
+
+//@ func New
+//@   ensures[value-or-error] (result0 != nil && result1 == nil) || (result0 == nil && result1 != nil)
+//@   ensures[accepts] result0 != nil <==> (s != nil && p != nil && o != nil)
+//@   ensures[value] result0 != nil ==> fresh(result0) && result0.s == s && result0.p == p && result0.o == o
+
+//@ func NewNodeObject
+//@   ensures[value] result != nil && fresh(result) && result.n == n && result.p == nil && result.l == nil
+
+//@ func NewPredicateObject
+//@   ensures[value] result != nil && fresh(result) && result.p == p && result.n == nil && result.l == nil
+
+//@ func NewLiteralObject
+//@   ensures[value] result != nil && fresh(result) && result.l == l && result.n == nil && result.p == nil
